@@ -38,6 +38,8 @@
 #include <memory>
 #include <vector>
 
+#include <stdexcept>
+
 #include <OpenVolumeMesh/Core/Handles.hh>
 #include <OpenVolumeMesh/Config/Export.hh>
 #include <OpenVolumeMesh/Core/detail/internal_type_name.hh>
@@ -115,7 +117,25 @@ public:
 	}
     bool anonymous() const {return name_.empty();}
 
+    /// Rename the property. A shared property must keep a non-empty name that is unique
+    /// among the shared properties of the same type on the same entity kind of its mesh;
+    /// otherwise std::runtime_error is thrown and nothing changes.
     void set_name(std::string _name) {
+        if (shared_) {
+            if (_name.empty()) {
+                throw std::runtime_error("Shared properties must have a name!");
+            }
+            if (const auto *t = tracker()) {
+                for (const PropertyStorageBase *other: *t) {
+                    if (other != this && other->shared()
+                            && other->name() == _name
+                            && other->internal_type_name() == internal_type_name())
+                    {
+                        throw std::runtime_error("A shared property with this name, type and entity type already exists.");
+                    }
+                }
+            }
+        }
         name_ = std::move(_name);
     }
 
